@@ -1,4 +1,4 @@
-import SnaxVerif.Lemmas.DmaStrided
+import SnaxVerif.Lemmas.DmaDynStrided
 /-!
 # C05 — DMA lowering of a copy moves every element to its layout position
 
@@ -149,6 +149,25 @@ theorem strided_dest_address (bv : Bool) (src dst : MemTy) (rs rd : Rt) (l : Low
     (tileAddr es x).2 = x * (s * src.el) :=
   Dma.strided_dest_address h hnt hETB hstr hs hs0 hd htb hbs x
 
+/-- DYNAMIC strides, SOURCE: a `strided<…>` source whose stride of dimension `d` is `?` is addressed, by the resolved
+entries, at `x · rs.strides[d] · el` — the stride of the SOURCE's own run-time descriptor (`extract_strided_metadata`),
+for any tiling the other side imposes. (Was validated by correspondence only.) -/
+theorem strided_dynamic_source_address (bv : Bool) (src dst : MemTy) (rs rd : Rt) (l : Lowered)
+    (h : transformDma bv src dst rs rd = .ok l) (strides : List (Option Nat)) (off : Option Nat)
+    (hl : src.layout = .strided strides off) (d m : Nat) (hs : strides[d]? = some none)
+    (hm : rs.strides[d]? = some m) (es : List Entry) (hd : l.nested[d]? = some es) (x : Nat) :
+    (tileAddr es x).1 = x * (m * src.el) :=
+  Dma.strided_dynamic_source_address h hl hs hm hd x
+
+/-- DYNAMIC strides, DESTINATION: `x · rd.strides[d] · el`, from the DESTINATION's own descriptor (this is what seed
+C05-r4m2 broke: reusing the source's step ops for an equal-looking destination type). -/
+theorem strided_dynamic_dest_address (bv : Bool) (src dst : MemTy) (rs rd : Rt) (l : Lowered)
+    (h : transformDma bv src dst rs rd = .ok l) (strides : List (Option Nat)) (off : Option Nat)
+    (hl : dst.layout = .strided strides off) (d m : Nat) (hs : strides[d]? = some none)
+    (hm : rd.strides[d]? = some m) (es : List Entry) (hd : l.nested[d]? = some es) (x : Nat) :
+    (tileAddr es x).2 = x * (m * src.el) :=
+  Dma.strided_dynamic_dest_address h hl hs hm hd x
+
 /-- C05 for `MatchSimpleCopy` (both layouts absent, any rank, static or dynamic shape, any width): the single 1-D
 transfer performs exactly the row-major element moves, in order. FULL. -/
 theorem simpleCopy_moves (src dst : MemTy) (rs rd : Rt) (p : DmaProg) (h : simpleCopy src dst rs rd = .ok p) :
@@ -224,6 +243,34 @@ theorem C05_byValueDistinct_fixed :
       (i32 [some 2, some 2] (.strided [some 1, some 2] (some 0)))
       ⟨1000, [2, 2], [1, 1], 0⟩ ⟨5000, [2, 2], [1, 2], 0⟩ true true false = some true := by decide +kernel
 
+/-- `strided_source_address` at full strength, i.e. WITHOUT the clause `s ≠ 0` (`NonZeroStride`): also a broadcast
+source (static stride 0) would be addressed at `x · 0 · el = 0`. FALSE of the code as it is (D42). -/
+def strided_source_address_statement : Prop :=
+  ∀ (bv : Bool) (src dst : MemTy) (rs rd : Rt) (l : Lowered), transformDma bv src dst rs rd = .ok l →
+    (∀ t, src.layout ≠ .tsl t) → ∀ (strides : List (Option Nat)), extractStrides src = some strides →
+    ∀ (d s : Nat), strides[d]? = some (some s) → ∀ (es : List Entry), l.nested[d]? = some es →
+    ∀ (b0 : Option Nat) (bs : List Nat), es.map (·.ss.bound) = b0 :: bs.map some → (∀ b ∈ bs, b ≠ 0) →
+    ∀ x, (tileAddr es x).1 = x * (s * src.el)
+
+/-- D42: `memref<4x4xi32, strided<[0, 1]>>` (every row is the same data) into a destination tiled `[2, 2] x [4]`:
+`TiledStride.from_stride` tests `bound and steps[0]` by truthiness, the static inner step 0 makes the OUTER tile step
+`None`, `get_step_ops` then invents a run-time value for it (16 bytes) and row 2 is read from byte 16 instead of 0. -/
+theorem strided_source_address_nonZeroStride_fails : ¬ strided_source_address_statement := by
+  intro hst
+  have hw : transformDma false (i32 [some 4, some 4] (.strided [some 0, some 1] (some 0)))
+      (i32 [some 4, some 4] (.tsl ⟨[[⟨some 8, some 2⟩, ⟨some 4, some 2⟩], [⟨some 1, some 4⟩]], some 0⟩))
+      ⟨1000, [4, 4], [0, 1], 0⟩ ⟨5000, [4, 4], [], 0⟩ =
+      .ok ⟨⟨[[⟨none, some 2⟩, ⟨some 0, some 2⟩], [⟨some 1, some 4⟩]], some 0⟩,
+        ⟨[[⟨some 8, some 2⟩, ⟨some 4, some 2⟩], [⟨some 1, some 4⟩]], some 0⟩,
+        [[⟨⟨none, some 2⟩, ⟨some 8, some 2⟩, 2, 16, 32⟩, ⟨⟨some 0, some 2⟩, ⟨some 4, some 2⟩, 2, 0, 16⟩],
+         [⟨⟨some 1, some 4⟩, ⟨some 1, some 4⟩, 4, 4, 4⟩]],
+        [⟨some 1, some 4⟩], ⟨1000, 5000, [(2, 0, 16)], .twoD 16 16 32 2⟩⟩ := by decide +kernel
+  have := hst _ _ _ _ _ _ hw (by intro t h; cases h) [some 0, some 1] (by decide) 0 0 (by decide)
+    [⟨⟨none, some 2⟩, ⟨some 8, some 2⟩, 2, 16, 32⟩, ⟨⟨some 0, some 2⟩, ⟨some 4, some 2⟩, 2, 0, 16⟩] (by decide)
+    (some 2) [2] (by decide) (by decide) 2
+  revert this
+  decide +kernel
+
 /-- therefore the full statement is false of the code as it is (D40 witness) -/
 theorem C05_statement_fails : ¬ C05_statement := by
   intro hst
@@ -260,6 +307,14 @@ example :
         (i32 [some 4, some 6] (.tsl ⟨[[⟨some 12, some 2⟩, ⟨some 2, some 2⟩], [⟨some 4, some 3⟩, ⟨some 1, some 2⟩]], some 0⟩))
         ⟨1000, [4, 6], [], 0⟩ ⟨5000, [4, 6], [], 0⟩ with
      | .ok l => (l.nested[0]?.map fun es => (es.length, (tileAddr es 3).1)) == some (2, 72)
+     | .error _ => false) = true := by decide +kernel
+
+/-- `strided_dynamic_*_address`: `memref<?x4xi32, strided<[?, 1]>>` on both sides, rows of a 12-wide buffer into a
+7-wide one: row 2 starts at 2·12·4 bytes in the source and at 2·7·4 bytes in the destination -/
+example :
+    (match transformDma false (i32 [none, some 4] (.strided [none, some 1] (some 0)))
+        (i32 [none, some 4] (.strided [none, some 1] (some 0))) ⟨1000, [3, 4], [12, 1], 0⟩ ⟨5000, [3, 4], [7, 1], 0⟩ with
+     | .ok l => (l.nested[0]?.map fun es => tileAddr es 2) == some (96, 56)
      | .error _ => false) = true := by decide +kernel
 
 /-- `loop_nest_faithful`: four remaining strides -/
